@@ -36,6 +36,7 @@ CFG = {
         "Swat4.C04.history_is_fold",
         "Swat4.C04.heartbeat_post_abs",
         "Swat4.C04.heartbeat_post",
+        "Swat4.C04.removal_post",
         "Swat4.C04.infoOf_field",
         "Swat4.C04.infoOf_named",
         "Swat4.C04.schema_params_pinned",
